@@ -286,9 +286,29 @@ mod proofs {
     use super::*;
 
     #[kani::proof]
-    #[kani::unwind(10)]
+    #[cfg_attr(any(feature = "n2", feature = "n3"), kani::unwind(6))]
+    #[cfg_attr(feature = "n4", kani::unwind(10))]
+    #[cfg_attr(feature = "n5", kani::unwind(18))]
+    #[kani::stub(std::collections::VecDeque::push_back, crate::stubs::vd_push_back)]
+    #[kani::stub(std::collections::VecDeque::pop_front, crate::stubs::vd_pop_front)]
     fn b_rank() {
         h_rank(N);
+    }
+
+    #[kani::proof]
+    #[kani::unwind(8)]
+    #[kani::stub(std::collections::VecDeque::push_back, crate::stubs::vd_push_back)]
+    #[kani::stub(std::collections::VecDeque::pop_front, crate::stubs::vd_pop_front)]
+    fn b_builder() {
+        h_builder(N);
+    }
+
+    #[kani::proof]
+    #[kani::unwind(8)]
+    #[kani::stub(std::collections::VecDeque::push_back, crate::stubs::vd_push_back)]
+    #[kani::stub(std::collections::VecDeque::pop_front, crate::stubs::vd_pop_front)]
+    fn b_builder_batch() {
+        h_builder_batch(N);
     }
 
     #[kani::proof]
@@ -296,4 +316,180 @@ mod proofs {
     fn b_augment() {
         h_augment(N);
     }
+}
+
+/// B0: the builder API. `CALLS` symbolic calls `(kind, from, to)` over `n`
+/// functions - self-edges, repeats and reversed pairs included - checked call
+/// by call against a reference closure (C16), then `add_*_edges` batch forms.
+pub const CALLS: usize = 4;
+
+pub fn h_builder(n: usize) {
+    use fn_graph::FnGraphBuilder;
+    let mut b = FnGraphBuilder::<Fx>::new();
+    let mut i = 0;
+    while i < N {
+        if i < n {
+            let id = b.add_fn(Fx { id: i as u8, acc: [ACC_NONE; K] });
+            vassert!(id.index() == i, "C11: add_fn did not return consecutive ids");
+        }
+        i += 1;
+    }
+    // reference state: kind[a][b] (0 none, 1 logic, 2 contains) and reflexive closure
+    let mut kind = [[0u8; N]; N];
+    let mut order = [(0u8, 0u8); CALLS];
+    let mut count = 0usize;
+    let mut c = 0;
+    while c < CALLS {
+        let a = nd::below(n as u8) as usize;
+        let bb = nd::below(n as u8) as usize;
+        let contains = nd::boolean();
+        // would the edge close a cycle with the accepted edges? (path b ->* a, a == b included)
+        let mut p = [[false; N]; N];
+        let mut x = 0;
+        while x < N {
+            p[x][x] = true;
+            let mut y = 0;
+            while y < N {
+                if kind[x][y] != 0 {
+                    p[x][y] = true;
+                }
+                y += 1;
+            }
+            x += 1;
+        }
+        warshall(&mut p);
+        // Dispatch over concrete endpoints: no symbolic array index reaches the code under test.
+        let mut x = 0;
+        while x < N {
+            let mut y = 0;
+            while y < N {
+                if x == a && y == bb {
+                    let would_cycle = p[y][x];
+                    let r = if contains {
+                        b.add_contains_edge(ni(x), ni(y))
+                    } else {
+                        b.add_logic_edge(ni(x), ni(y))
+                    };
+                    vassert!(r.is_err() == would_cycle, "C16: edge rejected although it closes no cycle, or accepted although it closes one");
+                    if let Ok(e) = r {
+                        if kind[x][y] == 0 {
+                            vassert!(e.index() == count, "C16: a new edge did not get the next edge id");
+                            let mut k = 0;
+                            while k < CALLS {
+                                if k == count {
+                                    order[k] = (x as u8, y as u8);
+                                }
+                                k += 1;
+                            }
+                            count += 1;
+                        }
+                        kind[x][y] = if contains { 2 } else { 1 };
+                    }
+                }
+                y += 1;
+            }
+            x += 1;
+        }
+        c += 1;
+    }
+    vcover!(count == 3, "three distinct edges accepted");
+    // the builder's graph has exactly the accepted edges, once each, last kind wins
+    let g = fn_graph::verif_hooks::builder_graph(&b);
+    let edges = g.raw_edges();
+    vassert!(edges.len() == count, "C16: built graph does not have exactly one edge per accepted ordered pair");
+    let mut e = 0;
+    while e < CALLS {
+        if e < count && e < edges.len() {
+            let (a, bb) = order[e];
+            vassert!(edges[e].source().index() == a as usize && edges[e].target().index() == bb as usize, "C16: accepted edge lost or reordered");
+            let mut x = 0;
+            while x < N {
+                let mut y = 0;
+                while y < N {
+                    if x == a as usize && y == bb as usize {
+                        vassert!(edges[e].weight == kind_of(kind[x][y] - 1), "C16: the most recently given kind did not win");
+                    }
+                    y += 1;
+                }
+                x += 1;
+            }
+        }
+        e += 1;
+    }
+}
+
+/// B0b: the batch forms stop at the first rejected edge and keep the earlier ones.
+pub fn h_builder_batch(n: usize) {
+    use fn_graph::FnGraphBuilder;
+    let mut b = FnGraphBuilder::<Fx>::new();
+    let mut i = 0;
+    while i < N {
+        if i < n {
+            b.add_fn(Fx { id: i as u8, acc: [ACC_NONE; K] });
+        }
+        i += 1;
+    }
+    let (a0, b0) = (nd::below(n as u8) as usize, nd::below(n as u8) as usize);
+    let (a1, b1) = (nd::below(n as u8) as usize, nd::below(n as u8) as usize);
+    let (a2, b2) = (nd::below(n as u8) as usize, nd::below(n as u8) as usize);
+    let first_ok = b.add_logic_edge(ni(a0), ni(b0)).is_ok();
+    vassert!(first_ok == (a0 != b0), "C16: first edge: only a self-edge may be rejected");
+    let contains = nd::boolean();
+    let r = if contains {
+        b.add_contains_edges([(ni(a1), ni(b1)), (ni(a2), ni(b2))]).map(|_| ())
+    } else {
+        b.add_logic_edges([(ni(a1), ni(b1)), (ni(a2), ni(b2))]).map(|_| ())
+    };
+    // reference
+    let mut kind = [[0u8; N]; N];
+    if first_ok {
+        kind[a0][b0] = 1;
+    }
+    let k = if contains { 2 } else { 1 };
+    let cyc = |kind: &[[u8; N]; N], a: usize, bb: usize| {
+        let mut p = [[false; N]; N];
+        let mut x = 0;
+        while x < N {
+            p[x][x] = true;
+            let mut y = 0;
+            while y < N {
+                if kind[x][y] != 0 {
+                    p[x][y] = true;
+                }
+                y += 1;
+            }
+            x += 1;
+        }
+        warshall(&mut p);
+        p[bb][a]
+    };
+    let c1 = cyc(&kind, a1, b1);
+    if !c1 {
+        kind[a1][b1] = k;
+    }
+    let c2 = if c1 { false } else { cyc(&kind, a2, b2) };
+    if !c1 && !c2 {
+        kind[a2][b2] = k;
+    }
+    vassert!(r.is_err() == (c1 || c2), "C16: batch form result differs from edge-by-edge acceptance");
+    let g = fn_graph::verif_hooks::builder_graph(&b);
+    let mut want = 0;
+    let mut x = 0;
+    while x < N {
+        let mut y = 0;
+        while y < N {
+            if kind[x][y] != 0 {
+                want += 1;
+                let f = g.find_edge(ni(x), ni(y));
+                vassert!(f.is_some(), "C16: batch form lost an edge accepted before the rejected one");
+                if let Some(f) = f {
+                    vassert!(g.edge_weight(f) == Some(&kind_of(kind[x][y] - 1)), "C16: batch form edge has the wrong kind");
+                }
+            }
+            y += 1;
+        }
+        x += 1;
+    }
+    vassert!(g.edge_count() == want, "C16: batch form left an edge behind after the rejected one");
+    vcover!(r.is_err() && want >= 1, "batch rejected with earlier edges kept");
 }
